@@ -15,7 +15,7 @@ TECHNIQUE = ("Coq theorems over any commutative ring with 2 invertible: Polynomi
 LEVEL_TEXT = ("Props/C11.v: 11 theorems (8 over any ring and every length, incl. the inverse laws of the Chebyshev helpers; 3 "
               "certificate-soundness theorems over Q/C). On every run the "
               "exact models are certified per instance against the proved PolynomialToLaurentForm / cheb2poly denotations, and the "
-              "implementation's outputs are compared with the models: exactly for integer-valued inputs, under a normwise rounding "
+              "implementation's outputs are compared with the models: under a normwise rounding "
               "budget otherwise; refusal of mixed parity is compared with the model's decision.")
 LEVEL_NOTE = ("Trusted: Coq kernel + vm_compute, extraction, driver.ml, harness, numpy/scipy as executors. The ring-level theorems are "
               "axiom-free; the certificate theorems over R/C use the stdlib real-number axioms + Classical_Prop.classic. The "
@@ -26,7 +26,7 @@ RULE = ("real and complex vectors of degree 1..30 (0..30 for the Chebyshev helpe
         "JSON; non-trivial = degree >= 2")
 TRUSTED = ["Coq 8.16.1 kernel incl. vm_compute", "extraction (ExtrOcamlBasic, ExtrOcamlZBigInt) + driver.ml + zarith, cross-checked in Coq on a slice",
            "harness (impl_runner.py, impl_handlers3.py, Fraction arithmetic)", "numpy/scipy as executors of the implementation"]
-ASSUME = ["floats compared with the exact model under the budget 64*(n+1)*u*B with B the magnitude run of the same conversion; integer data exactly"]
+ASSUME = ["floats compared with the exact model under the budget 64*(n+1)*u*B with B the magnitude run of the same conversion"]
 U = Fraction(1, 2 ** 53)
 
 
@@ -171,7 +171,7 @@ def run(ctx):
         ms = byc[idx]
         pv = [[fr(x) for x in part] for part in parts(c)]
         d = len(pv[0]) - 1
-        exact = c["fam"] == "int"
+        exact = False      # integer data too under the rounding budget (the property asks for agreement to rounding error)
         ctx.count(c, nontrivial=d >= 2, bucket="%s/%s/%s%s" % (c["fn"], c.get("mode"), c["fam"], "/complex" if c.get("complex") else ""))
         if c.get("mode") == "badkind":
             if "exc" not in r:
@@ -220,7 +220,7 @@ def run(ctx):
                     ctx.fail("poly2laurent", c, "poly2laurent: " + msg)
                     break
             else:
-                if exact and not c.get("complex") and d <= 4 and len(terms) < (4 if quick else 12):
+                if c["fam"] == "int" and not c.get("complex") and d <= 4 and len(terms) < (4 if quick else 12):
                     terms.append("check_p2l [%s] [%s]" % ("; ".join(qcoq(x) for x in pv[0]), "; ".join(qcoq(fr(x)) for x in out)))
             continue
         if c["fn"] == "ptlf":
